@@ -4,7 +4,8 @@
 (* the real pint binary (harness exec-c18).                                *)
 (*   AnchorProbe  the real regexp package was asked, for every short       *)
 (*                metacharacter string, whether it compiles alone but not  *)
-(*                between ^ and $ (the assumption behind strictRegex)      *)
+(*                between ^ and $ (the assumption behind strictRegex), and *)
+(*                whether it compiles alone but not inside ^(?: )$         *)
 (*   Case   opt, cls, rule   the abstract case                             *)
 (*          accepted         `pint config` exited 0 on the generated HCL   *)
 (*          ran, exit, panic what `pint [--offline] lint` did on the rule  *)
@@ -28,7 +29,10 @@ Crashed(r) == r.ran /\ ~r.hang /\ (r.panic \/ r.exit \notin {0, 1})
 TAnchorProbe ==
   /\ l <= Len(TraceLog) /\ Rec.ev = "AnchorProbe"
   /\ IF Rec.witnesses = 0 THEN TRUE
-     ELSE PrintT(<<"DRIFT", 0, ToJson([what |-> "a regexp valid alone but not when anchored exists", example |-> Rec.example])>>)
+     ELSE PrintT(<<"DRIFT", 0, ToJson([what |-> "a regexp valid alone but not between ^ and $ exists", example |-> Rec.example])>>)
+  \* the grouped form is different (Inv_GroupedNeedsOwnValidation): the probe must find the \Q family
+  /\ IF Rec.groupedWitnesses > 0 THEN TRUE
+     ELSE PrintT(<<"DRIFT", 0, ToJson([what |-> "no regexp is valid alone but invalid inside ^(?: )$", example |-> ""])>>)
   /\ l' = l + 1 /\ UNCHANGED <<vars, done>>
 
 TCase ==
